@@ -171,6 +171,16 @@ def work(item, ctx):
                 cfg = H.full_config(rng, ns, drop=drop, fill=0xA5 if rng.random() < 0.05 else 0)
             g = H.Hostile(rng, cfg, ns)
             lines = g.history(rng.choice([30, 60, 120, 300]))
+            if cfg.has(0x1804, 1):
+                # records of PDOs the stack is not built for: written like any other object, in PRE-OPERATIONAL and in OPERATIONAL
+                rid = 0x600 + cfg.nodeid
+                extra = ["rx %x 8 %s" % (rid, bytes(b).hex()) for b in (
+                    [0x2B, 0x04, 0x18, 0x05, rng.choice([0, 5, 50]), 0, 0, 0], [0x23, 0x04, 0x14, 0x01, (0x210 + cfg.nodeid) & 0xFF, (0x210 + cfg.nodeid) >> 8, 0, rng.choice([0, 0x80])],
+                    [0x23, 0x04, 0x18, 0x01, (0x190 + cfg.nodeid) & 0xFF, (0x190 + cfg.nodeid) >> 8, 0, rng.choice([0x40, 0xC0])], [0x2F, 0x04, 0x18, 0x02, rng.choice([1, 254]), 0, 0, 0],
+                    [0x2B, 0x04, 0x18, 0x03, 10, 0, 0, 0], [0x2F, 0x04, 0x1A, 0x00, 0, 0, 0, 0], [0x2F, 0x04, 0x16, 0x00, 1, 0, 0, 0])]
+                for e_ in extra + ["rx 0 2 01%02x" % cfg.nodeid] + extra + ["trigpdo 0", "rx 80 0 -", "tick 10"]:
+                    lines.insert(rng.randint(len(lines) // 2, len(lines)), e_)
+                res.counters["histories_with_surplus_pdo_records"] += 1
             res.evals += 1
             res.counters["cfg_" + ("minimal" if mode < 0.12 else "dropped" if drop else "full")] += 1
             res.counters["build_" + variant] += 1
